@@ -43,6 +43,9 @@ struct Ctl {
     stickiness: u16,
     /// yield points at which the yielding program is always preempted when another one is enabled
     preempt: Vec<&'static str>,
+    /// programs (bit mask) that are held back while they wait at a request for a lock of this class
+    /// and somebody else can run, for at most `points` scheduling points in total
+    holdback: Option<Holdback>,
     pos: usize,
     trace: Vec<String>,
     abort: bool,
@@ -58,6 +61,13 @@ struct Ctl {
     both_holding: usize,
     /// a lock request could not be granted at least once
     contended: usize,
+}
+
+#[derive(Clone, Debug)]
+pub struct Holdback {
+    pub progs: u32,
+    pub class: &'static str,
+    pub points: usize,
 }
 
 static CTL: Mutex<Option<Ctl>> = Mutex::new(None);
@@ -198,6 +208,20 @@ pub fn run(progs: Vec<Prog>, choices: &[u16], stickiness: u16, names: HashMap<us
 /// Like [`run`]; a program that stops at one of the `preempt` yield points is passed over as long as
 /// another program is enabled (directs the search into the window behind that point).
 pub fn run_with(progs: Vec<Prog>, choices: &[u16], stickiness: u16, names: HashMap<usize, String>, preempt: Vec<&'static str>) -> Outcome {
+    run_full(progs, choices, stickiness, names, preempt, None)
+}
+
+/// Like [`run_with`], plus a hold-back directive: the listed programs, when they stop at a request
+/// for a lock of the given class (e.g. between a metadata snapshot and taking the memory map), are
+/// passed over while another program can run - the search is directed into that window.
+pub fn run_full(
+    progs: Vec<Prog>,
+    choices: &[u16],
+    stickiness: u16,
+    names: HashMap<usize, String>,
+    preempt: Vec<&'static str>,
+    holdback: Option<Holdback>,
+) -> Outcome {
     let n = progs.len();
     *lock_ctl() = Some(Ctl {
         st: vec![St::NotStarted; n],
@@ -207,6 +231,7 @@ pub fn run_with(progs: Vec<Prog>, choices: &[u16], stickiness: u16, names: HashM
         choices: choices.to_vec(),
         stickiness,
         preempt,
+        holdback,
         pos: 0,
         trace: vec![],
         abort: false,
@@ -297,6 +322,26 @@ pub fn run_with(progs: Vec<Prog>, choices: &[u16], stickiness: u16, names: HashM
                     _ => false,
                 })
                 .collect();
+            // hold-back directive
+            let enabled: Vec<usize> = match &mut c.holdback {
+                Some(h) if h.points > 0 => {
+                    let held: Vec<usize> = enabled
+                        .iter()
+                        .copied()
+                        .filter(|&t| {
+                            h.progs >> t & 1 == 1
+                                && matches!(c.st[t], St::AtWant { addr, .. } if c.names.get(&addr).is_some_and(|nm| nm == h.class))
+                        })
+                        .collect();
+                    if !held.is_empty() && held.len() < enabled.len() {
+                        h.points -= 1;
+                        enabled.into_iter().filter(|t| !held.contains(t)).collect()
+                    } else {
+                        enabled
+                    }
+                }
+                _ => enabled,
+            };
             if enabled.is_empty() {
                 // wait-for description
                 let mut lines = vec![];
